@@ -7,7 +7,7 @@ CONSTANTS
   MaxSteps = 60
   Modes = {"normal", "coro"}
   Typed = TRUE
-  Ops = {"ConstructEmpty", "ConstructH", "MoveConstruct", "AddHandle", "AddFill", "AddTo", "MergeShl", "MoveAssign", "Pop", "Clear", "Destroy", "CoAwait", "Pause", "Read", "ConstructSelf", "AddSelf", "Yield"}
+  Ops = {"ConstructEmpty", "ConstructH", "MoveConstruct", "AddHandle", "AddFill", "AddTo", "MergeShl", "MoveAssign", "Pop", "Clear", "Destroy", "CoAwait", "Pause", "Read", "ConstructSelf", "AddSelf", "Yield", "ParResume", "CreateSP"}
   Fixed = TRUE
   Targets = {3, 4, 6, 7, 12, 13, 24, 25}
 INVARIANTS TypeOK RepOK NoDoubleResume Conservation NoLeak
